@@ -37,7 +37,7 @@ impl CodegenRule for Rule {
         let choice_body = self.definition.generate_code(&fields, grammar, &settings)?;
 
         let (types, inner_decls, parse_body) = if flags.string {
-            self.generate_string_rule(&settings)?
+            self.generate_string_rule(&fields, &settings)?
         } else if fields.len() == 1 && fields[0].name == "_override" {
             self.generate_override_rule(&fields, &settings)?
         } else {
@@ -138,6 +138,7 @@ impl Rule {
 
     fn generate_string_rule(
         &self,
+        fields: &[FieldDescriptor],
         settings: &CodegenSettings,
     ) -> Result<(TokenStream, TokenStream, TokenStream)> {
         let rule_mod = self.rule_module_ident();
@@ -164,9 +165,15 @@ impl Rule {
         } else {
             quote!(string)
         };
+        // The fields are thrown away, but the body still builds them
+        let inner_enum_types: TokenStream = fields
+            .iter()
+            .filter(|f| f.types.len() > 1)
+            .map(|f| generate_enum_type(&format!("Parsed_{}", f.name), f, settings))
+            .collect();
         Ok((
             type_decl,
-            quote!(),
+            inner_enum_types,
             quote!(
                 let result =
                     #rule_mod::parse(state.clone(), global)?
